@@ -69,7 +69,7 @@ CHECKS["C02"] = (
     "rs_check for stub-injected profiles (flat, spike, ties, -inf) and the real kernel, on the in-memory, cache-file and file-name paths.",
     "Trusted: Coq kernel + vm_compute; Coq-Interval (verified) and BigZ primitive ints; stdlib real axioms + classic + funext (Print Assumptions); "
     "numpy exp/subtraction within 1e-9 relative (closer decisions are skipped and counted); the recording Generator sees every draw; pool.map "
-    "preserves order. Survival PROBABILITY L_i/L_max follows from the rule given uniform draws (numpy's generator trusted).",
+    "preserves order. Survival PROBABILITY: C02_survival_probability proves that the rule's acceptance set has measure exp(ll_i - max) = L_i/L_max under a uniform draw on [0,1) (Coquelicot Riemann integral of the indicator); that numpy's Generator.uniform is uniform is trusted.",
     "DESIGN.md 3 (C02)",
 )
 CHECKS["C06"] = (
